@@ -203,6 +203,19 @@ CLAIMED["C12"] = (
     "Locations are not compared across layouts; the abort notice is recognised by its text.",
     "DESIGN.md 3/C12",
 )
+CLAIMED["C03"] = (
+    "schedule exploration with a deterministic completion-order scheduler (private asyncio loop, gates "
+    "released at quiescence by Hypothesis-drawn schedules) against the reference executor and the "
+    "synchronous run; trace invariant for serial mutations",
+    "For generated requests with awaitable field results, list items, async iterators, resolve_type / "
+    "is_type_of results and every explored completion order: data equals the reference executor's and the "
+    "synchronous run's, every error path ends at or below a null, every reference-nulled position is accounted "
+    "by an error, no null sits at a non-null position, nothing hangs (exact, clock-free), no exception reaches "
+    "the loop's handler, and top-level mutation fields start strictly after the previous one's subtree.",
+    "Completion order is controlled at quiescence granularity; callbacks of one loop iteration keep asyncio's "
+    "FIFO order; loop._ready is the one private attribute used.",
+    "DESIGN.md 3/C03",
+)
 PENDING_REASON = (
     "check under construction in this session (DESIGN.md section 3 has its design); it is not claimed "
     "until it has run quietly on the unchanged tree at several seeds"
